@@ -57,7 +57,7 @@ func (f *Setq) Call(s *slip.Scope, args slip.List, depth int) (result slip.Objec
 			slip.TypePanic(s, depth, "symbol argument to setq", args[i], "symbol")
 		}
 		i++
-		result = slip.EvalArg(s, args, i, d2)
+		result = slip.PrimaryValue(slip.EvalArg(s, args, i, d2))
 		s.Set(sym, result)
 	}
 	return
